@@ -40,6 +40,27 @@ package config
 //@     invariant #C18.checked forall n string :: $seen[n] && g.nodes[n] != stage ==> (forall j int :: 0 <= j && j < len(g.nodes[n].DependsOn) ==> g.nodes[n].DependsOn[j] in g.nodes)
 //@     invariant #C18.checking forall j int :: 0 <= j && j <= rangeindex ==> stage.DependsOn[j] in g.nodes
 
+// ---- C18: no pipeline includes itself. The inclusion relation (pipeline -> pipelines its stages include)
+// is fed, edge by edge, to a scheduler.ExecutionGraph whose AddStage refuses cycles (verified: C05);
+// every refusal is returned. includes(stages, x): some stage of the list includes pipeline x
+// (a stage without a task includes def.Pipeline: the same case distinction as buildPipeline).
+//@ pred includes(stages []*stageDefinition, n int, x string) := exists i int :: 0 <= i && i < n && stages[i] != nil && stages[i].Task == "" && stages[i].Pipeline == x
+//@ func checkPipelineInclusion
+//@   ghostlocal refused bool
+//@   modifies nothing
+//@   ensures #C18.inclusion-cycle-is-an-error refused ==> result != nil
+//@   loop 1 "range pipelines"
+//@     invariant #same inclusion != nil && fresh(inclusion) && allocated(inclusion) && wfG(inclusion) && fresh(inclusion.nodes) && fresh(inclusion.from) && fresh(inclusion.to)
+//@     invariant #C18.none-refused-so-far !refused
+//@   loop 2 "range stages"
+//@     invariant #same inclusion != nil && fresh(inclusion) && allocated(inclusion) && wfG(inclusion) && fresh(inclusion.nodes) && fresh(inclusion.from) && fresh(inclusion.to) && !refused
+//@     invariant #C18.included-sound forall j int :: 0 <= j && j < len(included) ==> includes(stages, rangeindex + 1, included[j])
+//@     invariant #C18.included-complete forall i int :: 0 <= i && i <= rangeindex && stages[i] != nil && stages[i].Task == "" ==> (exists j int :: 0 <= j && j < len(included) && included[j] == stages[i].Pipeline)
+//@   callsite AddStage
+//@     requires #C18.checked-on-the-inclusion-graph recv == inclusion && arg0.Name == name
+//@     requires #C18.all-inclusions-registered (forall j int :: 0 <= j && j < len(arg0.DependsOn) ==> includes(stages, len(stages), arg0.DependsOn[j])) && (forall i int :: 0 <= i && i < len(stages) && stages[i] != nil && stages[i].Task == "" ==> (exists j int :: 0 <= j && j < len(arg0.DependsOn) && arg0.DependsOn[j] == stages[i].Pipeline))
+//@     ghost refused = refused || result != nil
+
 // ---- C15: thin safety contracts of the loader (what callers guarantee, what results look like)
 //@ func buildTask
 //@   requires def != nil && lc != nil
@@ -68,7 +89,12 @@ package config
 //@   requires def != nil && lc != nil
 //@   modifies *
 //@   ensures err == nil ==> cfg != nil
+//@   ghostlocal included bool
+//@   callsite checkPipelineInclusion
+//@     requires #C18.whole-definition-checked arg0 == def.Pipelines
+//@     ghost included = result == nil
 //@   callsite buildPipeline
+//@     requires #C18.inclusion-checked-before-building calls(checkPipelineInclusion) == 1 && included
 //@     assumepre emptyG(arg0) // every graph registered by the pre-registration loop is a distinct, still empty NewExecutionGraph() (not carried as an invariant yet)
 //@   loop 1 "range def.Contexts"
 //@     invariant #same def == def0 && lc == lc0 && def != nil && lc != nil && cfg != nil && cfg.Contexts != nil && cfg.Tasks != nil && cfg.Watchers != nil && cfg.Pipelines != nil && cfg.Variables != nil
@@ -79,9 +105,11 @@ package config
 //@     invariant #same def == def0 && lc == lc0 && def != nil && lc != nil && cfg != nil && cfg.Contexts != nil && cfg.Tasks != nil && cfg.Watchers != nil && cfg.Pipelines != nil && cfg.Variables != nil
 //@     invariant #C18.tasks-non-nil forall k string :: k in cfg.Tasks ==> cfg.Tasks[k] != nil
 //@   loop 4 "range def.Pipelines"
+//@     invariant #C18.inclusion-checked calls(checkPipelineInclusion) == 1 && included
 //@     invariant #same def == def0 && lc == lc0 && def != nil && lc != nil && cfg != nil && cfg.Contexts != nil && cfg.Tasks != nil && cfg.Watchers != nil && cfg.Pipelines != nil && cfg.Variables != nil
 //@     invariant #C18.tasks-non-nil forall k string :: k in cfg.Tasks ==> cfg.Tasks[k] != nil
 //@   loop 5 "range def.Pipelines"
+//@     invariant #C18.inclusion-checked calls(checkPipelineInclusion) == 1 && included
 //@     invariant #same def == def0 && lc == lc0 && def != nil && lc != nil && cfg != nil && cfg.Contexts != nil && cfg.Tasks != nil && cfg.Watchers != nil && cfg.Pipelines != nil && cfg.Variables != nil
 //@     invariant #C18.tasks-non-nil forall k string :: k in cfg.Tasks ==> cfg.Tasks[k] != nil
 
